@@ -8,7 +8,7 @@ pops a choice point. Contents of answers are not decided.
 """
 import re
 
-from .core import AnchorLost, CFG, callee_of, hir_calls, res_name, short, walk
+from .core import AnchorLost, CFG, callee_of, hir_calls, matches_in, pat_variant, res_name, short, walk
 from . import orframe
 
 EXPLANATION = (
@@ -100,3 +100,81 @@ def run(ctx, R):
     calls = [short(r) for _, r, _ in hir_calls(F.hir(dr)["body"])]
     R.ob("C28:drop:releases-choice-point", any(c in ("Machine::trust_me", "Machine::trust_me_epilogue") for c in calls) or any("truncate" in c for c in calls),
          "dropping the iterator must pop the query's choice point; calls %s" % calls, F.where(dr))
+
+    # ---- "bindings equal to those the same query gives inside Prolog": the heap-to-Term conversion -----------------
+    fh_fn = [p for p, it in F.items.items() if p.endswith("Term::from_heapcell") and it["file"].startswith("src/machine/lib_machine")]
+    if len(fh_fn) != 1:
+        raise AnchorLost("Term::from_heapcell: %s" % fh_fn)
+    fh = F.hir(fh_fn[0])
+
+    def pushes(e):
+        """the expression definitely pushes a term on term_stack (or diverges) on every path"""
+        k = e.get("k")
+        if k == "Block":
+            for s in e.get("stmts", []):
+                if s.get("k") == "Let" and "init" in s and pushes(s["init"]):
+                    return True
+                if s.get("k") != "Let" and pushes(s):
+                    return True
+            return "expr" in e and pushes(e["expr"])
+        if k == "MethodCall":
+            if e["name"] == "push" and any(x["k"] == "Path" and res_name(x) == "term_stack" for x in walk(e["recv"])):
+                return True
+            return any(pushes(a) for a in e.get("args", []))
+        if k == "If":
+            return "else" in e and pushes(e["then"]) and pushes(e["else"])
+        if k == "Match":
+            return all(pushes(a["body"]) for a in e["arms"])
+        if k in ("Ret", "Break", "Continue"):
+            return True
+        if k == "Call":
+            r = e.get("resolved") or e.get("callee") or ""
+            if re.search(r"panicking::|unreachable|begin_panic", r):
+                return True
+        if k in ("MacCall",):
+            return False
+        if k == "DropTemps" or k == "Paren":
+            inner = e.get("e") or e.get("a")
+            return bool(inner) and pushes(inner)
+        if k == "Semi":
+            return pushes(e.get("e") or {})
+        return any(m[0] in ("unreachable", "panic", "todo", "unimplemented") for m in e.get("mac", []))
+
+    tag_matches = [m for m in matches_in(fh["body"], src=None) if any("HeapCellValueTag::" in (pat_variant(q) or res_name(q) or "") or q.get("k") == "PLit" for a in m["arms"] for q in walk(a["pat"]))]
+    if not tag_matches:
+        raise AnchorLost("from_heapcell: tag dispatch")
+    big = max(tag_matches, key=lambda m: len(m["arms"]))
+    n_arm = 0
+    for i, arm in enumerate(big["arms"]):
+        n_arm += 1
+        names = sorted({(pat_variant(q) or res_name(q) or "").rsplit("::", 1)[-1] for q in walk(arm["pat"]) if q.get("k") in ("PPath", "PStruct", "PTupleStruct", "PBind")} - {""})
+        R.ob("C28:answer-term:every-cell-kind-yields-a-term:arm%d" % i, pushes(arm["body"]),
+             "Term::from_heapcell: the arm for %s (line %s) can finish without pushing a term: the sub-term is lost and the answer is wrong or the conversion panics "
+             "(e.g. a packed string whose tail is an atom: partial_string(\"abc\", L, T), T = foo)" % (names[:4], arm["ln"]), F.where(fh_fn[0]))
+    R.floor("from_heapcell tag arms", n_arm, 8)
+    # anonymous variables: one name table per answer, not per binding
+    nx = F.find_impl("QueryState", "std::iter::Iterator", "next")
+    nh = F.hir(nx)
+    per_binding = 0
+    n_conv = 0
+    for loop in walk(nh["body"]):
+        if loop["k"] != "Loop":
+            continue
+        for x in walk(loop):
+            if x["k"] == "Call" and (x.get("resolved") or x.get("callee") or "").endswith("Term::from_heapcell"):
+                n_conv += 1
+                last = x["args"][-1]
+                if any(y["k"] == "MethodCall" and y["name"] == "clone" for y in walk(last)):
+                    per_binding += 1
+    if n_conv == 0:
+        raise AnchorLost("QueryState::next: from_heapcell inside the bindings loop")
+    R.ob("C28:answer-term:anonymous-names-shared-across-bindings", per_binding == 0,
+         "QueryState::next converts each binding with a fresh clone of the variable-name table: the _A, _B numbering restarts per binding and two distinct anonymous "
+         "variables of one answer get the same name (X = f(_), Y = g(_) reported as f(_A), g(_A))", F.where(nx))
+    # Drop also forgets the cleanup blocks (setup_call_cleanup/3) that point into the discarded frames: unwind_stack jumps
+    # to max(block, scc_block), so a stale scc_block sends the next throwing query to a frame that no longer exists
+    touches_cont = any(x["k"] == "Field" and x["name"] == "cont_pts" for x in walk(dh["body"]))
+    resets_scc = any(x["k"] == "Assign" and orframe.field_chain(x["lhs"])[-1:] == ["scc_block"] for x in walk(dh["body"]))
+    R.ob("C28:drop:forgets-cleanup-blocks-of-discarded-frames", touches_cont and resets_scc,
+         "Drop must pop the cont_pts entries installed above this query's stub and restore scc_block: after taking one answer of setup_call_cleanup(true, member(X,[1,2,3]), true) "
+         "and dropping the iterator, run_query(\"throw(b).\") panics in Stack::index_or_frame", F.where(dr))
